@@ -332,3 +332,24 @@ Definition violates_policy (c : Z) (pol : option policy) : bool :=
                      end
            end
   end.
+
+(* ---- Allocator.ClassifyClaims, per claim: allocated on the API server? reserved only by pods that are being
+   deleted? already allocated by an earlier pod of this pass (in-memory metadata)? ---- *)
+Inductive cls := CUnalloc | CInCluster | CInMemory.
+
+Definition classify (alloc only_deleting in_memory : bool) : cls :=
+  let reallocate := alloc && only_deleting in
+  if reallocate && negb in_memory then CUnalloc
+  else if alloc && negb reallocate then CInCluster
+  else if in_memory then CInMemory
+  else CUnalloc.
+
+(* the order of the tests before commit 4c084d0ce: the deleting-pods test came first *)
+Definition classify_before_fix (alloc only_deleting in_memory : bool) : cls :=
+  if alloc && only_deleting then CUnalloc
+  else if alloc then CInCluster
+  else if in_memory then CInMemory
+  else CUnalloc.
+
+Definition cls_eqb (a b : cls) : bool :=
+  match a, b with CUnalloc, CUnalloc | CInCluster, CInCluster | CInMemory, CInMemory => true | _, _ => false end.
